@@ -38,6 +38,7 @@ func init() {
 func runC18(c *Ctx, r *Report) {
 	l := c.L
 	defer c18r7(c, r)
+	defer c18r8(c, r)
 	hist := l.Named("fzf", "History")
 	fPath := l.Field("fzf", "History", "path")
 	fMod := l.Field("fzf", "History", "modified")
